@@ -77,7 +77,9 @@ def k_direct(run, case):
     m1 = "se3" if rng.random() < .5 else "xyzq"
     m2 = "se3" if rng.random() < .5 else "xyzq"
     stamped = bool(rng.random() < .5)
-    t_ref, t_est = gen.make_evo(ref, m1, stamped), gen.make_evo(est, m2, stamped)
+    t_ref = gen.make_evo(ref, m1, stamped, flavour=gen.rand_flavour(rng))
+    t_est = gen.make_evo(est, m2, stamped, flavour=gen.rand_flavour(rng))
+    gen.age(rng, t_ref), gen.age(rng, t_est)
     s1, s2 = contracts.field_snapshot(t_ref), contracts.field_snapshot(t_est)
     metric = metrics.APE(metrics.PoseRelation[relation])
     out = contracts.outcome_of(metric.process_data, (t_ref, t_est))
@@ -311,6 +313,11 @@ def draw_common_options(rng, fp):
     if rng.random() < .25:
         o["project_to_plane"] = ["xy", "xz", "yz"][rng.integers(3)]
         argv += ["--project_to_plane", o["project_to_plane"]]
+    # options that must not influence the values
+    for extra in (["-v"], ["--silent"], ["--debug"], ["--plot_mode", "zx"], ["--plot_x_dimension", "index"],
+                  ["--plot_full_ref"], ["--plot_colormap_max", "3"]):
+        if rng.random() < .08:
+            argv += extra
     return argv, o
 
 
